@@ -487,7 +487,7 @@ def run(tier, replay=None):
     core.proof_coverage(chk, lres, THM)
     b = core.build("asan", harness=["h_scan", "h_re"])
     r = core.rng("C03")
-    ns, nm = (1800, 500) if tier == "quick" else (30000, 10000)
+    ns, nm = (1800, 500) if tier == "quick" else (15000, 5000)
     cases, metas = [], {}
     for i, ent in enumerate(CORPUS):
         rx, mods, fl, buf = ent[:4]
